@@ -16,7 +16,7 @@ func init() {
 	register(&Rule{Name: "LEX.DELIMS", Props: []string{"C01", "C02"}, Floor: 2,
 		Doc: "unquoted-token delimiters equal RFC 7950 6.1.3 and every delimiter is handled by the ground state",
 		Run: ruleLexDelims})
-	register(&Rule{Name: "LEX.PROGRESS", Props: []string{"C01"}, Floor: 6,
+	register(&Rule{Name: "LEX.PROGRESS", Props: []string{"C01", "C16", "C02"}, Floor: 6,
 		Doc: "every loop of the lexer and parser consumes input (or a shrinking counter) on each iteration; state cycles consume",
 		Run: ruleLexProgress})
 	register(&Rule{Name: "LEX.ESC", Props: []string{"C02"}, Floor: 3,
